@@ -446,6 +446,7 @@ def make_store_class():
                 s.ev('save_dup', run, _nid(node_id), engine_id=node_id)
                 raise AlreadySaved(node_id)
             s.saved[(run, node_id)] = data
+            s.ev('save_done', run, _nid(node_id), engine_id=node_id, n=n)
 
         async def load(self, node_id):
             return S.saved[(self.ctx.pipeline_id, node_id)]
